@@ -78,6 +78,16 @@ theorem expr_path_agrees (op : CmpOp) (l r : Operand) (ev : Event) (h : compareP
     whereAccepts (.cmp op l r) ev = stepAccepts (.cmp op l r) ev := by
   simp [whereAccepts, stepAccepts, toPred, h, evalP]
 
+/-- the `null` literal needs no guard: `expr_to_value` has no `Null` arm, so a comparison with `null`
+on either side is never a `Predicate::Compare` and both contexts use the same evaluator — on every
+event, whether the field is missing, present with value null, or anything else -/
+theorem null_literal_agrees (op : CmpOp) (o : Operand) (ev : Event) :
+    whereAccepts (.cmp op o (.lit .null)) ev = stepAccepts (.cmp op o (.lit .null)) ev
+    ∧ whereAccepts (.cmp op (.lit .null) o) ev = stepAccepts (.cmp op (.lit .null) o) ev := by
+  constructor
+  · apply expr_path_agrees; cases o <;> simp [comparePath, Lit.compareValue]
+  · apply expr_path_agrees; simp [comparePath]
+
 section witnesses
 set_option exponentiation.threshold 3000
 
@@ -108,6 +118,17 @@ theorem dropped_filter_defect_witness :
     let e : FExpr := .and (.cmp .gt (.field "x") (.lit (.int 1))) (.other .isIn (.field "y") (.field "z"))
     let ev : Event := [("x", .int 0), ("y", .str "b"), ("z", .str "abc")]
     toPredOld e = none ∧ stepAcceptsOld e ev = true ∧ whereAccepts e ev = false ∧ stepAccepts e ev = false := by
+  decide +kernel
+
+/-- `x == null`: accepted by both contexts when `x` is present with value null, rejected by both
+when `x` is missing; `x != null` the other way round on the present-null field -/
+theorem null_field_cases :
+    whereAccepts (.cmp .eq (.field "x") (.lit .null)) [("x", .null)] = true
+    ∧ stepAccepts (.cmp .eq (.field "x") (.lit .null)) [("x", .null)] = true
+    ∧ whereAccepts (.cmp .eq (.field "x") (.lit .null)) [] = false
+    ∧ stepAccepts (.cmp .eq (.field "x") (.lit .null)) [] = false
+    ∧ whereAccepts (.cmp .ne (.field "x") (.lit .null)) [("x", .null)] = false
+    ∧ stepAccepts (.cmp .ne (.field "x") (.lit .null)) [("x", .null)] = false := by
   decide +kernel
 
 /-- `not (x > 1)` on an event without `x`: dropped by `.where`, accepted by the step -/
